@@ -15,10 +15,13 @@ package js
 //@   requires[S] jlInv(l)
 //@   ensures[S]  result ==> l.r.buf[l.r.pos] != 0
 
+//@ pred isLTat(b, k) := b[k] == '\n' || b[k] == '\r' || (b[k] == 0xE2 && b[k+1] == 0x80 && (b[k+2] == 0xA8 || b[k+2] == 0xA9))
 //@ func Lexer.consumeLineTerminator
 //@   preserves[S] jlStep(l)
 //@   ensures[S]  !result ==> l.r.pos == old(l.r.pos)
 //@   ensures[S]  result ==> l.r.pos > old(l.r.pos)
+//@   ensures[F,C06] @lt: result <==> isLTat(l.r.buf, old(l.r.pos))
+//@   ensures[F,C06] @lt-len: result ==> l.r.pos <= old(l.r.pos) + 3
 
 //@ func Lexer.consumeDigit
 //@   preserves[S] jlStep(l)
@@ -66,12 +69,31 @@ package js
 //@   loop * candidate l.r.pos > old(l.r.pos)
 //@   loop * candidate l.err == old(l.err)
 //@   loop * candidate tt == CommentToken || tt == CommentLineTerminatorToken
+//@   requires[F] l.r.buf[l.r.pos] == '/'
+//@   ensures[F,C06] @comment-lt: result == CommentLineTerminatorToken ==> exists(k, old(l.r.pos), l.r.pos, isLTat(l.r.buf, k))
+//@   ensures[F,C06] @comment-nolt: result == CommentToken && l.r.buf[old(l.r.pos)+1] == '*' ==> forall(k, old(l.r.pos), l.r.pos, !isLTat(l.r.buf, k))
+//@   ensures[F,C06] @comment-kind: result == ErrorToken || result == CommentToken || result == CommentLineTerminatorToken
+//@   ensures[F,C06] @comment-close: result != ErrorToken && l.r.buf[old(l.r.pos)+1] == '*' ==> l.r.pos >= old(l.r.pos) + 4 && l.r.buf[l.r.pos-2] == '*' && l.r.buf[l.r.pos-1] == '/'
+//@   loop 1 invariant[F] l.r.pos >= old(l.r.pos) + 2
+//@   loop 1 invariant[F] tt == CommentLineTerminatorToken ==> exists(k, old(l.r.pos), l.r.pos, isLTat(l.r.buf, k))
+//@   loop 1 invariant[F] tt == CommentToken ==> forall(k, old(l.r.pos), l.r.pos, !isLTat(l.r.buf, k))
 //@   loop * decreases len(l.r.buf) - l.r.pos
 
+//@ pred isDig(c) := '0' <= c && c <= '9'
 //@ func Lexer.consumeOperatorToken
 //@   preserves[S] jlStep(l)
 //@   requires[S] l.r.buf[l.r.pos] != 0
 //@   ensures[S]  l.r.pos > old(l.r.pos)
+//@   ensures[F,C06] @closed: result == ErrorToken || result == QuestionToken || result == ArrowToken || (OperatorToken < result && result <= OptChainToken)
+//@   ensures[F,C06] @canonical-op: OperatorToken < result && result <= OptChainToken ==> l.r.pos - old(l.r.pos) == len(operatorBytes[result - OperatorToken]) &&
+//@        forall(k, 0, l.r.pos - old(l.r.pos), l.r.buf[old(l.r.pos) + k] == operatorBytes[result - OperatorToken][k])
+//@   ensures[F,C06] @question: result == QuestionToken ==> l.r.pos == old(l.r.pos) + 1 && l.r.buf[old(l.r.pos)] == '?'
+//@   ensures[F,C06] @arrow: result == ArrowToken ==> l.r.pos == old(l.r.pos) + 2 && l.r.buf[old(l.r.pos)] == '=' && l.r.buf[old(l.r.pos)+1] == '>'
+//@   ensures[F,C06] @optchain-digit: result == OptChainToken ==> !isDig(l.r.buf[l.r.pos])
+//@   ensures[F,C06] @question-dot: result == QuestionToken && l.r.buf[l.r.pos] == '.' ==> isDig(l.r.buf[l.r.pos+1])
+//@   ensures[F,C06] @longest-eq: result != ErrorToken && l.r.buf[l.r.pos] == '=' ==> result == EqEqEqToken || result == NotEqEqToken || result == ArrowToken || result == BitNotToken || result == QuestionToken || result == OptChainToken ||
+//@        result == IncrToken || result == DecrToken || result == GtGtGtEqToken || result == LtLtEqToken || result == GtGtEqToken || result == ExpEqToken || result == AndEqToken || result == OrEqToken || result == NullishEqToken ||
+//@        result == EqEqToken || result == NotEqToken || result == LtEqToken || result == GtEqToken || result == AddEqToken || result == SubEqToken || result == MulEqToken || result == DivEqToken || result == ModEqToken || result == BitAndEqToken || result == BitOrEqToken || result == BitXorEqToken
 
 //@ func Lexer.consumeIdentifierToken
 //@   preserves[S] jlStep(l)
@@ -89,6 +111,7 @@ package js
 //@ func Lexer.consumeNumericToken
 //@   preserves[S] jlStep(l)
 //@   requires[S] ('0' <= l.r.buf[l.r.pos] && l.r.buf[l.r.pos] <= '9') || l.r.buf[l.r.pos] == '.'
+//@   ensures[F,C06] @num-kind: result == ErrorToken || result == DecimalToken || result == BinaryToken || result == OctalToken || result == HexadecimalToken || result == IntegerToken
 //@   ensures[S]  result != ErrorToken ==> l.r.pos > old(l.r.pos)
 //@   ensures[S]  result == ErrorToken && l.r.pos == old(l.r.pos) ==> l.err == old(l.err)
 //@   loop * candidate l.r.pos > old(l.r.pos)
@@ -98,6 +121,7 @@ package js
 
 //@ func Lexer.consumeStringToken
 //@   preserves[S] jlStep(l)
+//@   ensures[F,C06] @str-kind: result == ErrorToken || result == StringToken
 //@   requires[S] l.r.buf[l.r.pos] != 0
 //@   ensures[S]  l.r.pos > old(l.r.pos)
 //@   loop * candidate l.r.pos > old(l.r.pos)
@@ -111,6 +135,7 @@ package js
 //@   loop * decreases len(l.r.buf) - l.r.pos
 
 //@ func Lexer.consumeTemplateToken
+//@   ensures[F,C06] @tpl-kind: result == ErrorToken || result == TemplateToken || result == TemplateStartToken || result == TemplateMiddleToken || result == TemplateEndToken
 //@   preserves[S] jlStep(l)
 //@   requires[S] l.r.buf[l.r.pos] != 0 && len(l.templateLevels) >= 1
 //@   ensures[S]  l.r.pos > old(l.r.pos)
@@ -121,6 +146,11 @@ package js
 //@ func Lexer.RegExp
 //@   preserves[S] jlInv(l)
 
+// spelled10(r, t): r and t are the same byte string of at most ten bytes (quantifier-free: the longest keyword has ten)
+//@ pred sameAt(r, t, k) := k < len(t) ==> r[k] == t[k]
+//@ pred spelled10(r, t) := len(r) == len(t) && len(t) <= 10 && sameAt(r, t, 0) && sameAt(r, t, 1) && sameAt(r, t, 2) && sameAt(r, t, 3) && sameAt(r, t, 4) && sameAt(r, t, 5) && sameAt(r, t, 6) && sameAt(r, t, 7) && sameAt(r, t, 8) && sameAt(r, t, 9)
+//@ pred punct1(tt) := tt == OpenBraceToken || tt == CloseBraceToken || tt == OpenParenToken || tt == CloseParenToken || tt == OpenBracketToken || tt == CloseBracketToken || tt == DotToken || tt == SemicolonToken || tt == CommaToken || tt == QuestionToken || tt == ColonToken
+//@ pred punctByte(tt) := ite(tt == OpenBraceToken, '{', ite(tt == CloseBraceToken, '}', ite(tt == OpenParenToken, '(', ite(tt == CloseParenToken, ')', ite(tt == OpenBracketToken, '[', ite(tt == CloseBracketToken, ']', ite(tt == DotToken, '.', ite(tt == SemicolonToken, ';', ite(tt == CommaToken, ',', ite(tt == QuestionToken, '?', ':'))))))))))
 //@ func Lexer.Next
 //@   preserves[S] jlInv(l) && l.r.pos >= old(l.r.pos) && l.r.start >= old(l.r.start)
 //@   ensures[S,C01] @progress: l.r.pos + l.r.start > old(l.r.pos + l.r.start) || (result0 == ErrorToken && result1 == nil && l.r.pos == len(l.r.buf)-1)
@@ -132,6 +162,17 @@ package js
 //@   ensures[T,C02] @tile: result0 != ErrorToken ==> sameMem(result1, l.r.buf[old(l.r.pos):l.r.pos]) && cap(result1) == len(result1) && len(result1) > 0 && l.r.start == l.r.pos
 //@   ensures[T,C02] @errtok: result0 == ErrorToken && result1 != nil ==> sameMem(result1, l.r.buf[old(l.r.pos):l.r.pos]) && cap(result1) == len(result1) && l.r.start == l.r.pos
 //@   ensures[T,C02] @frame: sameBytesExcept(0, 0)
+//@   ensures[F,C06] @op-canonical: OperatorToken < result0 && result0 <= OptChainToken ==> len(result1) == len(operatorBytes[result0 - OperatorToken]) && forall(k, 0, len(result1), result1[k] == operatorBytes[result0 - OperatorToken][k])
+//@   ensures[F,C06] @punct-canonical: punct1(result0) ==> len(result1) == 1 && result1[0] == punctByte(result0)
+//@   ensures[F,C06] @arrow-canonical: result0 == ArrowToken ==> len(result1) == 2 && result1[0] == '=' && result1[1] == '>'
+//@   ensures[F,C06] @ellipsis-canonical: result0 == EllipsisToken ==> len(result1) == 3 && result1[0] == '.' && result1[1] == '.' && result1[2] == '.'
+//@   ensures[F,C06] @optchain-digit: result0 == OptChainToken ==> !isDig(l.r.buf[l.r.pos])
+//@   ensures[F,C06] @comment-lt: result0 == CommentLineTerminatorToken ==> exists(k, 0, len(result1), isLTat(result1, k))
+//@   ensures[F,C06] @comment-nolt: result0 == CommentToken && len(result1) >= 2 && result1[0] == '/' && result1[1] == '*' ==> forall(k, 0, len(result1), !isLTat(result1, k))
+//@   ensures[F,C06] @keyword-canonical: ReservedToken < result0 && result0 <= WithToken ==> spelled10(result1, reservedWordBytes[result0 - ReservedToken])
+//@   ensures[F,C06] @ctxkeyword-canonical: IdentifierToken < result0 && result0 <= TargetToken ==> spelled10(result1, identifierBytes[result0 - IdentifierToken])
+//@   ensures[F,C06] @tokentype-range: result0 <= PrivateIdentifierToken || (NumericToken < result0 && result0 <= IntegerToken) || (PunctuatorToken < result0 && result0 <= EllipsisToken) || (OperatorToken < result0 && result0 <= OptChainToken) || (ReservedToken < result0 && result0 <= WithToken) || (IdentifierToken <= result0 && result0 <= TargetToken)
+//@   ensures[F,C06] @tokentype-closed: result0 != PunctuatorToken && result0 != OperatorToken && result0 != NumericToken && result0 != RegExpToken
 
 //@ func Lexer.Err
 //@   requires[S] l != nil && l.r != nil && bufInv(l.r)
